@@ -1,4 +1,4 @@
 import Drv.Loop
+import Drv.Gen
 
-/-- stub: replaced by the workstream handler -/
-def main : IO Unit := Drv.runDriver (fun _ _ => none)
+def main : IO Unit := Drv.runDriver Drv.Gen.handle
